@@ -60,6 +60,8 @@ def gen_cases(tier: str, seed: int) -> list[dict]:
                 cases.append({"kind": "api2", "modes": [mode_a, mode_b], "retry": retry, "chunk": 0, "chunks": 1, "seed": seed, "sample": 80 if tier == "quick" else 1500, "notasks": True})
     for i in range(10 if tier == "quick" else 80):
         cases.append({"kind": "api3", "i": i, "seed": seed, "runs": 25})
+    for sp in (3, 4):
+        cases.append({"kind": "engine", "pair": f"error_save_vs_cancel:{sp}", "chunk": 0, "chunks": 1, "seed": seed, "sample": 60 if tier == "quick" else 800})
     for pair in ("join_tracking:DISCRIMINATOR", "join_tracking:N_OF_M", "cancel_complete", "join_tracking_vs_plan:DISCRIMINATOR", "join_tracking_vs_plan:N_OF_M"):
         for c in range(chunks):
             cases.append({"kind": "engine", "pair": pair, "chunk": c, "chunks": chunks, "seed": seed, "sample": 100 if tier == "quick" else 2000})
@@ -319,6 +321,23 @@ def _engine(case: dict) -> dict:
     obs: Counter = Counter()
     keys: set = set()
     violations = []
+    if pair.startswith("error_save_vs_cancel"):
+        # RunTask of a task body that raises: its error-recording save (TransactionHelper.execute_atomic_critical)
+        # x the CancelStage of the same stage, committed by another worker between the handler's read and its
+        # save.  The pair scenario and the durable-status monitor are C06's; what is decided here is C07's question:
+        # a committed write (CANCELED) must not be silently replaced by a writer that had read an older row.
+        from . import c06
+
+        r = c06._fault_pair({"kind": "fault_pair", "first": "RunTask", "spec": int(pair.split(":")[1]), "seed": case["seed"], "nofault": True, "sample": case["sample"]})
+        obs["evaluations"] = r["obs"].get("evaluations", 0)
+        obs["engine_pair_schedules_with_switch"] = len(r["keys"])
+        obs["error_save_vs_cancel_runs"] = r["obs"].get("error_path_pair_runs", 0)
+        for x in r["violations"]:
+            if "CANCELED->" in x["sig"]:
+                violations.append(viol("C07/lost-update:committed-cancel-overwritten-by-the-error-path-save", x["msg"] + f" (schedule {x.get('schedule')})"))
+            else:
+                violations.append(dict(x, sig=x["sig"].replace("C06/", "C07/")))
+        return {"violations": _uniq(violations) if "_uniq" in globals() else violations, "obs": dict(obs), "keys": [k.replace("errpair", "c07errpair") for k in r["keys"]]}
     if pair.startswith("join_tracking"):
         jt = pair.split(":")[1]
         spec = c04._join_spec(jt, 2 if jt == "DISCRIMINATOR" else 3)
